@@ -276,7 +276,8 @@ pub fn run(ctx: &Ctx) -> Report {
                 seed_class: "random#h10".into(),
                 seed: rng.bytes(alg.n()),
                 tool: alg == Alg::Sha256_256,
-                child_counters: if lv.len() > 1 && lv.iter().skip(1).all(|l| l.h <= 5) { vec![0, 33] } else { vec![] },
+                // (parent leaves beyond the size of the tree below: 1029 -> top leaf 32 for H10 over H5)
+                child_counters: if lv.len() > 1 && lv.iter().skip(1).all(|l| l.h <= 5) { vec![0, 33, 1029, (hss::total_leaves(&lv) - 1) as u64] } else { vec![] },
             });
         }
     }
